@@ -1,4 +1,5 @@
 import Rustemo.Model.Glr
+import Rustemo.Model.GlrCert
 import Rustemo.Model.Dump
 import Rustemo.Model.Print
 /-!
@@ -16,6 +17,9 @@ Answer: exactly the line `harness/dyn/src/run.rs::run_glr` prints for the real `
   record format and numbering of `Forest::verif_dump`, so the sharing structure is compared textually),
 * `ok parse-only` for `max_trees = 0`,
 * `err expected <pos>-<pos> <kinds>`, `panic <site>`, `timeout`.
+
+The request `cert` (no further fields) runs the certificate `Cert.glr` of `Model/GlrCert.lean` on the loaded
+table: `cert glr=<b> nul=<b> structuralRN=<b> symbols=<b> total=<b>`.
 -/
 namespace Rustemo.Glr
 open Rustemo
@@ -184,7 +188,15 @@ def renderGlr (o : Outcome GlrResult) (maxTrees : Nat) : String :=
 
 def glrFuel (input : List Nat) : Nat := 2000 + 200 * input.length
 
+/-- `glr cert`: the certificate the engine theorems assume (Tie B), with its parts -/
+def handleCert (d : Dump) : String :=
+  let g := d.grammar
+  let t := d.table
+  let nul := Canon.nullable g
+  s!"cert glr={b01 (Cert.glr g t)} nul={b01 (Cert.nulOk g nul)} structuralRN={b01 (Cert.structuralRN g t (autosOf g t) nul)} symbols={b01 (Cert.symbolsOk g t)} total={b01 (Cert.total g t 0)}"
+
 def handleGlr (d : Dump) (args : String) : String :=
+  if args.trimAscii.toString == "cert" then handleCert d else
   match args.splitOn " #" with
   | [req, mat] =>
     match fields req with
